@@ -37,8 +37,11 @@ func H_C12_model(v *zzverif.T) {
 		}
 		return &onnx.ModelProto{OpsetImport: []*onnx.OperatorSetIdProto{{Version: 13}},
 			Graph: &onnx.GraphProto{Initializer: []*onnx.TensorProto{a, b},
-				Node:   []*onnx.NodeProto{{OpType: "Relu", Input: []string{"b"}, Output: []string{"o"}}},
-				Output: []*onnx.ValueInfoProto{{Name: "o"}, {Name: "a"}, {Name: "b"}}}}
+				Node: []*onnx.NodeProto{{OpType: "Relu", Input: []string{"b"}, Output: []string{"o"}},
+					// the same INT32 payload once more as the value of a Constant node: it keeps its declared type too
+					{OpType: "Constant", Output: []string{"k"}, Attribute: []*onnx.AttributeProto{{Name: "value", Type: onnx.AttributeProto_TENSOR,
+						T: &onnx.TensorProto{DataType: 6, Dims: []int64{int64(n)}, RawData: append([]byte(nil), raw...)}}}}},
+				Output: []*onnx.ValueInfoProto{{Name: "o"}, {Name: "a"}, {Name: "b"}, {Name: "k"}}}}
 	}
 	defaulted := v.Has("defaulted") && v.CBool("defaulted")
 	mp := mk()
@@ -55,7 +58,7 @@ func H_C12_model(v *zzverif.T) {
 	}
 	unchanged := func() bool {
 		g, o := mp.Graph, orig.Graph
-		if g == nil || len(mp.OpsetImport) != 1 || mp.OpsetImport[0].Version != 13 || len(g.Initializer) != len(o.Initializer) || len(g.Node) != 1 || len(g.Output) != 3 || len(g.Input) != len(o.Input) {
+		if g == nil || len(mp.OpsetImport) != 1 || mp.OpsetImport[0].Version != 13 || len(g.Initializer) != len(o.Initializer) || len(g.Node) != 2 || len(g.Output) != 4 || len(g.Input) != len(o.Input) {
 			return false
 		}
 		for k, tp := range g.Initializer {
@@ -136,6 +139,10 @@ func H_C12_model(v *zzverif.T) {
 				return false
 			}
 			v.AssertTensor("C12.model.weight-a-as-used:"+tag+":"+r, out["a"], []int{n}, wantI)
+			v.Assert("C12.model.constant-present:"+tag+":"+r, out["k"] != nil)
+			if out["k"] != nil {
+				v.AssertTensor("C12.model.constant-value-as-declared:"+tag+":"+r, out["k"], []int{n}, wantI)
+			}
 			v.AssertTensor("C12.model.weight-b-as-used:"+tag+":"+r, out["b"], []int{1, n}, wantB)
 		}
 		return true
